@@ -134,6 +134,11 @@ func init() {
 	reg("(time.Time).GoString", opaqueStr)
 	reg("time.Sleep", func(th *Thread, fr *frame, fn *ssa.Function, args []Value) Value {
 		p := th.p
+		if p.eng.Cfg.ConcreteClock {
+			p.clock = Bin(OpAdd, p.clock, args[0].(*Term))
+			th.schedPoint(nil, "Sleep")
+			return nil
+		}
 		nc := p.freshVar("clock", 64)
 		p.assume(Cmp(OpSle, Bin(OpAdd, p.clock, args[0].(*Term)), nc))
 		p.assume(Cmp(OpUle, p.clock, nc))
